@@ -10,6 +10,8 @@
            tol      tolerance kinds x perturbation sizes x real / complex / vector summands
            inf      infinite limits x convergent summands x cutoffs (1/n! selects the factorial cutoff)
            err      faults in the author's sum x faults in the submission x subsets of input_positions
+           rnd      integer limits written inexactly (just below / just above the integer) in the lower, the upper or
+                    both limits of the submission or of the author's sum x limits^2 x even_odd x rewritings
            algebra  laws of Index / SumOf / the rational comparison themselves (not replayed) *)
 EXTENDS SumGrader
 CONSTANTS Part, L, Cut, Stride
@@ -90,6 +92,7 @@ Perturbs == { <<"lo", 1>>, <<"lo", -1>>, <<"hi", 1>>, <<"hi", -1>>, <<"add", 1>>
               <<"shift_body", 1>>, <<"shift_limits", 2>>, <<"shift_wrong", 1>>, <<"flip", 0>> }
 
 (* ---- faults *)
+InexactFaults == {"qbelow_lower", "qbelow_upper", "qabove_lower", "qabove_upper", "qbelow_both", "qmixed_both"}
 AuthorFaults == {"none", "half_lower", "cplx_upper", "var_i", "var_x", "var_c", "blank_lower", "blank_summand", "unknown_var", "pole"}
 StudentFaults == {"none", "blank_lower", "blank_upper", "blank_summand", "blank_var", "var_pi", "var_i", "var_sin", "var_x",
                   "half_lower", "half_upper", "cplx_lower", "cplx_upper", "xdep_upper", "uses_c", "plusc_lower", "pole", "unknown_var"}
@@ -108,6 +111,12 @@ ApplyFault(s, f, k, xs) ==
     [] f = "var_c" -> WithVar(s, "c")
     [] f = "half_lower" -> [s EXCEPT !.lower = [s.lower EXCEPT !.k = "half"]]
     [] f = "half_upper" -> [s EXCEPT !.upper = [s.upper EXCEPT !.k = "half"]]
+    [] f = "qbelow_lower" -> [s EXCEPT !.lower = [s.lower EXCEPT !.k = "qbelow"]]
+    [] f = "qbelow_upper" -> [s EXCEPT !.upper = [s.upper EXCEPT !.k = "qbelow"]]
+    [] f = "qabove_lower" -> [s EXCEPT !.lower = [s.lower EXCEPT !.k = "qabove"]]
+    [] f = "qabove_upper" -> [s EXCEPT !.upper = [s.upper EXCEPT !.k = "qabove"]]
+    [] f = "qbelow_both" -> [s EXCEPT !.lower = [s.lower EXCEPT !.k = "qbelow"], !.upper = [s.upper EXCEPT !.k = "qbelow"]]
+    [] f = "qmixed_both" -> [s EXCEPT !.lower = [s.lower EXCEPT !.k = "qabove"], !.upper = [s.upper EXCEPT !.k = "qbelow"]]
     [] f = "cplx_lower" -> [s EXCEPT !.lower = [s.lower EXCEPT !.k = "cplx"]]
     [] f = "cplx_upper" -> [s EXCEPT !.upper = [s.upper EXCEPT !.k = "cplx"]]
     \* upper limit written as (u - x1) + x: the same integer at the first sample, something else at the others
@@ -162,17 +171,23 @@ Space ==
           tr |-> {<<"same", 0>>, <<"swap", 0>>, <<"rename", 0>>, <<"reverse", 0>>, <<"cut_explicit", 0>>, <<"cut_explicit", -1>>,
                   <<"cut_explicit", 1>>, <<"shift", 1>>, <<"shift", -2>>, <<"add", 1>>, <<"lo", 1>>, <<"hi", -1>>, <<"scale", 2>>},
           l |-> {LInt(n) : n \in -2..(L - 1)} \cup {PInf, NInf}, u |-> {LInt(n) : n \in -2..(L - 1)} \cup {PInf, NInf},
-          P |-> {Fields}, ord |-> {"asc"}, tol |-> {"default", "milli"}, cut |-> {Cut, Cut + 4},
+          P |-> {Fields}, ord |-> {"asc"}, tol |-> {"default", "milli"}, cut |-> (IF L > 4 THEN {Cut, Cut + 4} ELSE {Cut}),
           fa |-> {"none"}, fs |-> {"none"}, fk |-> {0}, xs |-> {"frac"}]
     [] Part = "err" ->
          [sid |-> (IF L > 4 THEN {"xlin", "ivar", "vec"} ELSE {"xlin", "ivar"}), eo |-> {0, 1}, tr |-> {<<"same", 0>>, <<"shift", 1>>},
           l |-> (IF L > 4 THEN {LInt(-1), LInt(4)} ELSE {LInt(-1)}), u |-> {LInt(3)}, P |-> SUBSET Fields, ord |-> {"asc"},
           tol |-> {"default"}, cut |-> {Cut}, fa |-> AuthorFaults, fs |-> StudentFaults, fk |-> (IF L > 4 THEN {2, 5} ELSE {2}),
           xs |-> {"frac", "int"}]
+    [] Part = "rnd" ->
+         [sid |-> (IF L > 3 THEN {"quad", "altn", "xlin"} ELSE {"quad", "xlin"}), eo |-> 0..2,
+          tr |-> {<<"same", 0>>, <<"shift", 1>>} \cup (IF L > 3 THEN {<<"swap", 0>>} ELSE {}),
+          l |-> Lims, u |-> Lims, P |-> {Fields}, ord |-> {"asc"}, tol |-> {"default"}, cut |-> {Cut},
+          fa |-> {"none", "qbelow_lower", "qabove_lower"} \cup (IF L > 3 THEN {"qbelow_upper"} ELSE {}),
+          fs |-> {"none"} \cup InexactFaults, fk |-> {0}, xs |-> {"frac"}]
     [] Part = "algebra" ->
          [sid |-> DOMAIN Catalogue \ {"fact"}, eo |-> 0..2, tr |-> {<<"same", 0>>}, l |-> Lims \cup {PInf, NInf}, u |-> Lims \cup {PInf, NInf},
           P |-> {Fields}, ord |-> {"asc"}, tol |-> {"default"}, cut |-> {Cut}, fa |-> {"none"}, fs |-> {"none"},
-          fk |-> (-L)..L, xs |-> {"frac"}]
+          fk |-> (IF L > 3 THEN (-L)..L ELSE {-2, 0, 1}), xs |-> {"frac"}]
 
 IsInf(l) == l.k \in {"pinf", "ninf"}
 GeoLike(sid) == sid \in {"geo", "altgeo", "xgeo", "geoinv", "fact"}
@@ -190,7 +205,8 @@ Sensible(x) ==
   \* faults mostly one at a time; a few combinations of an author's fault with a fault in the submission
   /\ x.fa # "none" => x.fs \in {"none", "blank_lower", "half_upper", "var_pi", "pole"}
   /\ x.xs = "int" => x.fs = "xdep_upper"
-  /\ x.eo = 1 => x.fs = "pole" \/ x.fa = "pole" \/ (x.fs = "none" /\ x.fa = "none")
+  /\ Part = "err" /\ x.eo = 1 => x.fs = "pole" \/ x.fa = "pole" \/ (x.fs = "none" /\ x.fa = "none")
+  /\ Part = "rnd" => (x.fa = "none") # (x.fs = "none")
   /\ x.fs \in {"var_pi", "var_i", "var_sin", "var_x"} \/ x.fa \in {"var_i", "var_x", "var_c"} => x.tr[1] \in {"same", "shift"}
   /\ x.fs = "unknown_var" \/ x.fa = "unknown_var" => x.tr[1] \in {"same", "shift"}
 
@@ -255,7 +271,12 @@ FieldOfFault(f) == CASE f \in {"blank_lower", "half_lower", "cplx_lower", "plusc
 LawStudentFault == IsCase /\ c.fa = "none" /\ FieldOfFault(c.fs) # {} /\ FieldOfFault(c.fs) \subseteq c.P => out = {"student_err"}
 LawAuthorFault == IsCase /\ c.fs = "none" /\ Full /\ c.fa \in {"half_lower", "cplx_upper", "var_i", "var_x", "var_c", "blank_lower", "blank_summand", "unknown_var"}
                      => out = {"config_err"}
-LawNeverBothVerdictAndError == IsCase /\ Defined => ~(out \cap {"correct", "incorrect"} # {} /\ out \cap {"student_err", "config_err"} # {})
+\* an inexactly written integer limit is either refused or taken for exactly that integer -- nothing else
+LawInexactSubmission == IsCase /\ Part = "rnd" /\ c.fa = "none"
+                           => out = {"student_err"} \cup Allowed(io.aut, Exactly(io.stu), c.P, io.cfg)
+LawInexactAuthor == IsCase /\ Part = "rnd" /\ c.fs = "none"
+                       => out = {"config_err"} \cup Allowed(Exactly(io.aut), io.stu, c.P, io.cfg)
+LawNeverBothVerdictAndError == IsCase /\ Defined /\ Part # "rnd" => ~(out \cap {"correct", "incorrect"} # {} /\ out \cap {"student_err", "config_err"} # {})
 
 (* ---- laws of the algebra part: Index and SumOf themselves *)
 Env0 == [x |-> Zero, c |-> CVal]
